@@ -85,7 +85,7 @@ K04 = ("K0", "K4")      # builder-side rules: with and without the async feature
 prop("C01",
      [("R1", B.R1, ("K0", "K3"), {}), ("R2", B.R2, ("K0",), {"strict_order": False}),
       ("R3", B.R3, ("K0",), {"parts": ("structures", "counts", "graph-field")}), ("R4", B.R4, ("K0",), {}),
-      ("R5", B.R5, ("K0", "K3"), {}), ("R6", B.D2_coverage, ("K0",), {}),
+      ("R5", B.R5, ("K0", "K3"), {}), ("R6", B.D2_coverage, ("K0",), {}), ("R7", B.R7, ("K0", "K3"), {}),
       ("S1", S.S1, K01, {}), ("S2", S.S2, K01, {}), ("S3", S.S3, K01, {}), ("S4", S.S4, K01, {}), ("S5", S.S5, K01, {})],
      ("K0", "K1", "K3"),
      "Decides R1 (the conflict predicate compares A.read x B.write, A.write x B.read, A.write x B.write for the two endpoints of the "
@@ -114,7 +114,7 @@ prop("C06",
 prop("C11",
      [("R3", B.R3, K04, {"parts": ("graph-field",)}), ("W1", B.W1, K04, {}), ("B3", B.B3, K04, {}), ("R2", B.R2, K04, {"strict_order": True}),
       ("R1", B.R1, K04, {}), ("K", B.C13_rules, K04, {}), ("P1", B.P1, K04, {}), ("E", B.C16_rules, K04, {}),
-      ("ID", B.ID_rules, K04, {}), ("R6", B.D2_coverage, K04, {})],
+      ("ID", B.ID_rules, K04, {}), ("R6", B.D2_coverage, K04, {}), ("R7", B.R7, K04, {})],
      K04,
      "Decides B1 (phase order: ranks, then augmentation, then counts and structure copies, all on the same graph which becomes FnGraph.graph), "
      "B2 (no add_node/remove/clear/retain reaches the user's Dag from build()), B3 (the only added edge is Edge::Data, control dependent on "
@@ -127,7 +127,7 @@ prop("C11",
 prop("C12",
      [("D1", B.D1, K04, {}), ("D2", B.D2, K04, {}), ("D3", B.D3, K04, {}), ("D4", B.D4, K04, {}),
       ("K", B.C13_rules, K04, {}), ("E", B.C16_rules, K04, {}), ("R2", B.R2, K04, {"strict_order": True}), ("B3", B.B3, K04, {}),
-      ("D4e", lambda ctx: R.edge_eq_rule(ctx, "D4"), K04, {})],
+      ("D4e", lambda ctx: R.edge_eq_rule(ctx, "D4"), K04, {}), ("D1r", lambda ctx: B.rank_ord_rule(ctx, "D1"), K04, {})],
      K04,
      "Decides D1 (ids listed in ascending id order and sorted by a stable sort whose comparator is ranks[first] vs ranks[second], ascending), "
      "D2 (the Data edge goes from the outer element to an element at a later position of the same sorted list), D3 (no hash-ordered container, "
@@ -139,7 +139,8 @@ prop("C12",
      "non-redundancy of Data edges and the exact tie-break outcome as functions of the input")
 
 prop("C13",
-     [("K", B.C13_rules, K04, {}), ("R3", B.R3, K04, {"parts": ("ranks",)}), ("E", B.C16_rules, K04, {})],
+     [("K", B.C13_rules, K04, {}), ("R3", B.R3, K04, {"parts": ("ranks",)}), ("E", B.C16_rules, K04, {}), ("ID", B.ID_rules, K04, {}),
+      ("K7", lambda ctx: B.rank_ord_rule(ctx, "K7"), K04, {})],
      K04,
      "Decides K1 (ranks start as Rank(0) x node_count), K2 (the work queue is seeded with exactly the parent-less nodes), K3 (every store to "
      "ranks[child] is ranks[parent]+1 - constant 1 through Rank: Add<usize>, whose body adds the fields - merged by max or guarded by candidate > existing), "
@@ -149,7 +150,8 @@ prop("C13",
      "that the relaxation reaches the longest-path fixpoint for every insertion order (paper argument)")
 
 prop("C16",
-     [("E", B.C16_rules, ("K0", "K4"), {}), ("W1", B.W1, ("K0", "K4"), {})],
+     [("E", B.C16_rules, ("K0", "K4"), {}), ("W1", B.W1, ("K0", "K4"), {}), ("R2", B.R2, ("K0", "K4"), {"strict_order": True}),
+      ("B3", B.B3, ("K0", "K4"), {})],
      ("K0", "K4"),
      "Decides E1 (add_logic_edge/add_contains_edge perform exactly one daggy::Dag::update_edge(from, to, const Logic|Contains) - directly or through crate-local helpers whose parameters are "
      "resolved at their call site - with the result returned unchanged), E2 (batch forms perform that same insertion once per element in array order, with the kind their name says, stop at and return the first error), "
@@ -158,7 +160,7 @@ prop("C16",
      "daggy's cycle test itself (update_edge: must_check_for_cycle + has_path_connecting), trusted")
 
 prop("C18",
-     [("C18.loops", B.C18_loops, ("K0", "K4"), {})],
+     [("C18.loops", B.C18_loops, ("K0", "K4"), {}), ("C18.ord", lambda ctx: B.rank_ord_rule(ctx, "C18.ord"), ("K0", "K4"), {})],
      ("K0", "K4"),
      "Decides, over the crate-local call graph of build(): no recursion; every natural loop is collection-bounded or a worklist loop; and every push onto a "
      "popped work queue is control dependent on a progress guard (strict improvement of a per-node value stored in the same guarded region, a test-and-set "
@@ -203,7 +205,8 @@ prop("C09",
      "the order claim beyond `push happens at dequeue`")
 
 prop("C10",
-     [("L1", R.L1, K01, {}), ("L2", R.L2, K01, {}), ("L3", R.L3, K01, {}), ("S6", S.S6, K01, {"roles_filter": ("READY",)})],
+     [("L1", R.L1, K01, {}), ("L2", R.L2, K01, {}), ("L3", R.L3, K01, {}), ("S6", S.S6, K01, {"roles_filter": ("READY",)}),
+      ("L4", R.L4, K01, {})],
      K01,
      "Decides L1 (`limit` flows unchanged from each of the 12 public parameters into StreamExt::for_each_concurrent's limit argument, whose stream is the READY stream) "
      "L2 (fold/try_fold paths are sequential - StreamExt::fold / try_fold or one `while let .. next().await` loop - and go on only after the user future's Ready arm), "
@@ -212,7 +215,8 @@ prop("C10",
      "the in-flight count of for_each_concurrent (futures' contract); `any limit >= 1 completes` beyond S4")
 
 prop("C14",
-     [("Q", R.Q_rules, ("K0", "K4"), {}), ("R3", B.R3, ("K0", "K4"), {"parts": ("structures",)}), ("R4", B.R4, ("K0", "K4"), {})],
+     [("Q", R.Q_rules, ("K0", "K4"), {}), ("R3", B.R3, ("K0", "K4"), {"parts": ("structures",)}), ("R4", B.R4, ("K0", "K4"), {}),
+      ("ID", B.ID_rules, ("K0", "K4"), {}), ("E", B.C16_rules, ("K0", "K4"), {})],
      ("K0", "K4"),
      "Decides Q1 (each of iter, iter_rev, toposort, map, fold, try_fold, for_each, try_for_each creates and steps Topo with the same graph), Q2 (forward APIs walk a "
      "forward-role graph, iter_rev the reversed structure; roles from build()), Q3 (the id produced by Topo indexes self.graph unchanged), Q4 (try_fold/try_for_each return the "
@@ -253,7 +257,7 @@ prop("C15",
 PROPS["C15"]["witnesses"] = [("c15", [], ""), ("c15", ["interruptible"], "")]
 
 prop("C20",
-     [("N", ST.N_rules, K01, {}), ("A1", T.A1, K01, {}), ("N6", B.N6, K01, {})],
+     [("N", ST.N_rules, K01, {}), ("A1", T.A1, K01, {}), ("N6", B.N6, K01, {}), ("L4", R.L4, K01, {})],
      K01,
      "Whole-property static argument (non-interference of simultaneous runs): N1-N5 as for C15 (nothing mutable is reachable through &FnGraph; no global state; all per-run state "
      "allocated per call; scheduling fields never written), plus FnGraph<F>: Sync for F: Send + Sync (shared runs from several threads), two shared-reference runs and a stream may be "
